@@ -221,7 +221,9 @@ CloseViol ==
              (leftAt >= 0 /\ ~closing /\ ReplaceMark \notin mayFault /\ tear = 0) => notified)
 CloseEff ==
     /\ open' = FALSE /\ leftAt' = -1 /\ inq' = <<>>
-    /\ tear' = 0                        \* _reset() forgets the pending teardown whatever ended the session
+    \* _reset() forgets the pending teardown whatever ended the session; handle_connection, which closes the transport an
+    \* inbound connection replaces, calls _close() only: the teardown asked for is still owed on the new transport
+    /\ tear' = IF ReplaceMark \in mayFault THEN tear ELSE 0
     /\ UNCHANGED <<fsm, sentOpen, gotOpen, gotKA, hold, fault, mayFault, closing, notified, lastRx, lastKA, connAt, apiUp>>
 
 ApiUpViol == Chk("C05-api-up-outside-established", fsm = "ESTABLISHED")
